@@ -29,6 +29,8 @@ FIXED_MODEL = os.environ.get("C18_MODEL", "fixed") != "upstream"
 # is the FIXED code; C18_RESCALE=upstream / C18_LOWER=upstream compare against the unpatched patterns (diagnostics only)
 FIXED_RESCALE = os.environ.get("C18_RESCALE", "fixed") != "upstream"
 FIXED_LOWER = os.environ.get("C18_LOWER", "fixed") != "upstream"
+# fixes/FD15-dispatch-operand-types.diff is shipped but NOT applied (status open): C18_DISPATCH=fixed compares with its model
+FIXED_DISPATCH = os.environ.get("C18_DISPATCH", "upstream") == "fixed"
 CMPI_PREDS = ["eq", "ne", "slt", "sle", "sgt", "sge", "ult", "ule", "ugt", "uge"]
 WIDTHS = [8, 16, 32, 64]
 BIN = ["addi", "muli", "subi"]
@@ -248,6 +250,10 @@ class BlockView:
             return ["v", self.index[v]]
         if isinstance(v, OpResult) and isinstance(v.op, arith.ConstantOp):
             return ["o", _width(v.type), v.op.value.value.data]
+        if isinstance(v, OpResult) and v.op.name == "test.op" and "val" in v.op.attributes:
+            # an outside value that is NOT a constant op (function argument, loop-carried value ...): the harness fixes the
+            # value it has at run time in an attribute so that the interpreter and the model agree on it
+            return ["o", _width(v.type), v.op.attributes["val"].value.data]
         raise Unsupported("operand defined outside the block is not a constant")
 
     def ret(self):
@@ -890,6 +896,100 @@ def make_kernel_op(kind, tys):
     return cls(operands=operands, result_types=[ts[-1]])
 
 
+# ------------------------------------------------------------------------------------------------
+# whole modules: several linalg.generic ops in one func (memref / dynamic memref / tensor / scalar-input forms, some inside an
+# scf.for), run through pass PIPELINES in one process — state that survives from one op or pass to the next
+FORMS = ["memref", "memref", "dynamic", "tensor", "scalar_in"]
+
+
+def render_generic_item(k, item, indent):
+    """one linalg.generic (+ the test.op producing its operands and the constants it uses), SSA names prefixed by g<k>"""
+    body = item["body"]
+    outer = {}
+    lines = render_ops(body, outer)
+    ws = value_widths(body)
+    ret = body["ret"]
+    lines.append("  linalg.yield " + ", ".join(_ref_name(r, outer) for r in ret) + " : " + ", ".join(f"i{ref_width(ws, r)}" for r in ret))
+    args = body["args"]
+    n = len(args)
+    form = item["form"]
+    kind, dim = ("tensor", "8") if form == "tensor" else ("memref", "?" if form == "dynamic" else "8")
+    tys = [f"{kind}<{dim}xi{w}>" for w in args]
+    maps = ["affine_map<(d0) -> (d0)>"] * n
+    if form == "scalar_in" and n >= 2:     # the last input is a scalar, broadcast by an empty indexing map (as in the upstream qmac test)
+        tys[n - 2] = f"i{args[n - 2]}"
+        maps[n - 2] = "affine_map<(d0) -> ()>"
+    out = [f'{", ".join(f"%m{i}" for i in range(n))} = "test.op"() : () -> ({", ".join(tys)})']
+    for (w, c), name in outer.items():
+        if item.get("free_outer"):
+            out.append(f'{name} = "test.op"() {{val = {sgn(w, c)} : i{w}}} : () -> i{w}')
+        else:
+            out.append(f"{name} = arith.constant {sgn(w, c)} : i{w}")
+    res = "%res = " if form == "tensor" else ""
+    out.append(f'{res}linalg.generic {{indexing_maps = [{", ".join(maps)}], iterator_types = ["parallel"]}} '
+               f'ins({", ".join(f"%m{i}" for i in range(n - 1))} : {", ".join(tys[:-1])}) outs(%m{n - 1} : {tys[-1]}) {{')
+    out.append("^bb0(" + ", ".join(f"%v{i} : i{w}" for i, w in enumerate(args)) + "):")
+    out += lines
+    out.append("}" + (f" -> {tys[-1]}" if form == "tensor" else ""))
+    if form == "tensor":
+        out.append(f'"test.op"(%res) : ({tys[-1]}) -> ()')
+    txt = "\n".join(indent + l for l in out)
+    for pre in ("%m", "%v", "%c", "%res"):
+        txt = txt.replace(pre, f"%g{k}{pre[1:]}")
+    return txt
+
+
+def render_multi(case):
+    lines = [f'"accfg.accelerator"() <{{name = @{a}, fields = {{}}, launch_fields = {{}}, barrier = 0 : i32}}> : () -> ()'
+             for a in case["accs"]]
+    lines.append("func.func @f(%n : index) {")
+    lines += ["  %lb = arith.constant 0 : index", "  %st = arith.constant 1 : index"]
+    for k, item in enumerate(case["items"]):
+        if item["in_loop"]:
+            lines.append(f"  scf.for %i{k} = %lb to %n step %st {{")
+            lines.append(render_generic_item(k, item, "    "))
+            lines.append("  }")
+        else:
+            lines.append(render_generic_item(k, item, "  "))
+    lines += ["  func.return", "}"]
+    return "\n".join(lines) + "\n"
+
+
+def gen_multi(rng):
+    items = []
+    for _ in range(rng.choice([2, 2, 3, 3, 4])):
+        r = rng.random()
+        k = rng.choice(["mul", "add", "mac", "mac", "qmac"])
+        if r < 0.45:
+            body = commute(rng, region_json(k, gen_typed_tys(rng, k)))
+        elif r < 0.8:
+            body = mutate(rng, commute(rng, region_json(k, gen_typed_tys(rng, k))))
+        else:
+            body = gen_random_body(rng, 4)
+        items.append({"form": rng.choice(FORMS), "in_loop": rng.random() < 0.3, "body": body, "free_outer": rng.random() < 0.3})
+    if rng.random() < 0.5:      # the same body twice in one module (same kernel recognised twice, constants shared by value)
+        items.append(dict(items[0], form=rng.choice(FORMS)))
+    accs = [a for a in ["snax_alu", "snax_gemmx"] if rng.random() < 0.6]
+    rng.shuffle(accs)
+    return {"kind": "multi", "items": items, "accs": accs}
+
+
+def dispatch_findings(kernel, tys, accs, lc):
+    """the dispatch clause of the property on one generic (shared by the single-op and the module stream)"""
+    if lc is None:
+        return []
+    t = acc_table()
+    name = lc[:-len("_stream")] if lc.endswith("_stream") else lc
+    decl = t.get(name) if name in accs else None
+    if decl is None:
+        return [{"what": f"library_call {lc} names no dispatch template of the module {accs}", "finding": None}]
+    if [kernel, tys] not in decl["supported"]:
+        kinds = [x[0] for x in decl["supported"]]
+        return [{"what": f"kernel.{kernel} with types {tys} dispatched to {name}, which declares {decl['supported']}",
+                 "finding": "D15" if kernel in kinds else None}]
+    return []
+
+
 DISPATCH_ACCS = ["snax_alu", "snax_gemmx", "snax_hwpe_mult"]
 
 
@@ -962,8 +1062,12 @@ class C18(Prop):
             yield {"kind": "expand", "kbody": gen_kbody(rng)}
         for _ in range(200 if q else 3000):
             yield gen_fused(rng)
+        for _ in range(120 if q else 2000):
+            yield gen_multi(rng)
         for _ in range(200 if q else 3000):
             yield gen_rescale(rng)
+        for _ in range(40 if q else 600):     # two or three kernel.rescale generics in ONE module (constants are hoisted per op)
+            yield {"kind": "multi_rescale", "items": [gen_rescale(rng) for _ in range(rng.choice([2, 2, 3]))]}
         for _ in range(150 if q else 2500):
             yield gen_tosa(rng)
         for _ in range(10 if q else 100):    # a kernel.rescale whose parent is not a linalg.generic is not lowered
@@ -993,6 +1097,10 @@ class C18(Prop):
             return self.impl_expand(case)
         if k == "fused":
             return self.impl_fused(case)
+        if k == "multi":
+            return self.impl_multi(case)
+        if k == "multi_rescale":
+            return self.impl_multi_rescale(case)
         if k == "rescale":
             return self.impl_rescale(case)
         if k == "tosa":
@@ -1078,6 +1186,84 @@ class C18(Prop):
         after = [interpret(oview, i) for i in ins]
         return {"mbody": mb, "ins": ins[:N_CORR], "vals": before[:N_CORR], "out": oview.mbody_json(),
                 "unchanged": snaxrun.text(omod) == before_text, "_before": before, "_after": after, "_ins": ins}
+
+    def impl_multi(self, case):
+        import snaxrun
+        from xdsl.dialects import linalg
+        src = render_multi(case)
+        try:
+            mod = parse_checked(src)
+        except Exception as e:
+            return {"invalid_input": type(e).__name__, "msg": str(e)[:200]}
+        gens = [op for op in mod.walk() if isinstance(op, linalg.GenericOp)]
+        views = [BlockView(g.body.block) for g in gens]
+        bodies = [v.body_json() for v in views]
+        if bodies != [it["body"] for it in case["items"]]:
+            raise Unsupported("renderer/converter round trip differs (module)")
+        rng = case_rng(case)
+        ins = [gen_inputs(rng, v.args, 8) for v in views]
+        before = [[interpret(v, i) for i in il] for v, il in zip(views, ins)]
+
+        def run(passes):
+            omod = parse_checked(snaxrun.run_passes(src, passes))
+            og = [op for op in omod.walk() if isinstance(op, linalg.GenericOp)]
+            if len(og) != len(gens):
+                raise Unsupported(f"{len(og)} generics after {passes}")
+            return omod, og, [BlockView(g.body.block) for g in og]
+
+        # (1) recognition alone, (2) recognition + expansion in ONE pipeline, (3) recognition + dispatch in one pipeline
+        _, _, v1 = run("convert-linalg-to-kernel")
+        _, _, v2 = run("convert-linalg-to-kernel,convert-kernel-to-linalg")
+        _, g3, _ = run("convert-linalg-to-kernel,dispatch-kernels")
+        kforms = [v.kbody_json() if v.kernel_op() is not None else None for v in v1]
+        same1 = [kf is not None or v.body_json() == b for kf, v, b in zip(kforms, v1, bodies)]
+        after1 = [[interpret(v, i) for i in il] for v, il in zip(v1, ins)]
+        round_trip = [v.mbody_json() for v in v2]
+        after2 = [[interpret(v, i) for i in il] for v, il in zip(v2, ins)]
+        calls = [g.library_call.data if g.library_call is not None else None for g in g3]
+        return {"bodies": bodies, "kforms": kforms, "unrecognised_unchanged": same1, "round_trip": round_trip, "calls": calls,
+                "_ins": ins, "_before": before, "_after1": after1, "_after2": after2}
+
+    def impl_multi_rescale(self, case):
+        import numpy as np
+        import snaxrun
+        from snaxc.dialects.kernel import RescaleOp
+        from xdsl.dialects import linalg
+        parts = []
+        for k, it in enumerate(case["items"]):
+            txt = render_rescale_case(it)
+            for pre in ("%m", "%v"):
+                txt = txt.replace(pre, f"%g{k}{pre[1:]}")
+            parts.append(txt)
+        src = "".join(parts)
+        try:
+            mod = parse_checked(src)
+        except Exception as e:
+            return {"invalid_input": type(e).__name__, "msg": str(e)[:200]}
+        omod = snaxrun.parse(snaxrun.run_passes(src, "convert-kernel-to-linalg"))
+        gens = [op for op in omod.walk() if isinstance(op, linalg.GenericOp)]
+        if len(gens) != len(case["items"]):
+            raise Unsupported("number of generics changed")
+        golden = golden_model()
+        outs = []
+        for g, it in zip(gens, case["items"]):
+            if any(isinstance(op, RescaleOp) for op in g.body.block.ops):
+                outs.append({"unchanged": True})
+                continue
+            view = BlockView(g.body.block)
+            p, (wi, wr), ch = it["params"], it["args"], it["ch"]
+            vals = []
+            for x in it["xs"]:
+                r = interpret(view, [[wi, x & ((1 << wi) - 1)], [wr, 0]])
+                e = r[0] if r is not None and len(r) == 1 else None
+                gq = None
+                if ch < len(p["shift"]) and ch < len(p["multiplier"]) and 1 <= p["shift"][ch] <= 63:
+                    gv = golden(np.array([x], dtype=np.int64), p["input_zp"], p["output_zp"], p["shift"][ch], p["max_int"],
+                                p["min_int"], int(p["double_round"]), p["multiplier"][ch])
+                    gq = int(gv[0]) & 0xFFFFFFFF
+                vals.append([e, gq])
+            outs.append({"body": view.body_json(), "vals": vals})
+        return {"items": outs}
 
     def impl_rescale(self, case):
         import numpy as np
@@ -1217,6 +1403,21 @@ class C18(Prop):
         if k == "fused":
             return [{"fn": "c18.lower", "args": {"mbody": impl_out["mbody"], "fixed": FIXED_LOWER}},
                     {"fn": "c18.meval", "args": {"mbody": impl_out["mbody"], "ins": impl_out["ins"]}}]
+        if k == "multi_rescale":
+            reqs = []
+            for it in case["items"]:
+                reqs.append({"fn": "c18.rescale_body", "args": {"fixed": FIXED_RESCALE, "params": it["params"], "args": it["args"]}})
+                reqs.append({"fn": "c18.rescale_eval", "args": {"fixed": FIXED_RESCALE, "params": it["params"], "ch": it["ch"],
+                                                                "wi": it["args"][0], "wr": it["args"][1], "xs": it["xs"]}})
+            return reqs
+        if k == "multi":
+            reqs = []
+            t = acc_table()
+            accs = [t[a] for a in case["accs"] if t.get(a) is not None]
+            for body, item in zip(impl_out["bodies"], case["items"]):
+                reqs.append({"fn": "c18.recognize_pipeline", "args": {"body": body, "accs": accs, "dynamic": item["form"] == "dynamic",
+                                                                      "fixed_dispatch": FIXED_DISPATCH}})
+            return reqs
         if k == "rescale":
             return [{"fn": "c18.rescale_body", "args": {"fixed": FIXED_RESCALE, "params": case["params"], "args": case["args"]}},
                     {"fn": "c18.rescale_eval", "args": {"fixed": FIXED_RESCALE, "params": case["params"], "ch": case["ch"],
@@ -1243,7 +1444,7 @@ class C18(Prop):
         accs = [t[a] for a in case["accs"] if t.get(a) is not None]
         kb = case["kbody"]
         return [{"fn": "c18.dispatch", "args": {"accs": accs, "kernel": kb["kernel"], "tys": kb["opTypes"] + [kb["resWidth"]],
-                                                "dynamic": case["dynamic"]}}]
+                                                "dynamic": case["dynamic"], "fixed": FIXED_DISPATCH}}]
 
     def model(self, case, answers, impl_out):
         for a in answers:
@@ -1281,6 +1482,20 @@ class C18(Prop):
                 vals.append([[ew, e] if e is not None else None, s])
             # the golden model is only called for shifts 1..63 and an existing channel: the model's spec is `none` exactly there
             return {"body": b, "vals": vals}
+        if k == "multi_rescale":
+            outs = []
+            for j, it in enumerate(case["items"]):
+                b = answers[2 * j]["ok"]
+                if isinstance(b, dict) and "unchanged" in b:
+                    outs.append({"unchanged": True})
+                    continue
+                ew = it["args"][1] if FIXED_RESCALE else 8
+                outs.append({"body": b, "vals": [[[ew, e] if e is not None else None, sp] for (e, sp) in answers[2 * j + 1]["ok"]]})
+            return {"items": outs}
+        if k == "multi":
+            rs = [a["ok"] for a in answers]
+            return {"bodies": impl_out["bodies"], "kforms": [r["kform"] for r in rs], "unrecognised_unchanged": [True] * len(rs),
+                    "round_trip": [r["round_trip"] for r in rs], "calls": [r["call"] for r in rs]}
         if k == "rescale_nolinalg":
             return {"unchanged": True}   # LowerRescale's first guard; the model of the pattern starts inside a linalg.generic
         if k == "tosa":
@@ -1359,6 +1574,36 @@ class C18(Prop):
                     return [{"what": f"body {mb} computes {b} on inputs {i}; after convert-kernel-to-linalg it is "
                                      f"{impl_out['out']} and computes {a}", "finding": "DC18a" if single else None}]
             return []
+        if k == "multi_rescale":
+            out = []
+            for j, (it, o) in enumerate(zip(case["items"], impl_out["items"])):
+                for v in self.oracle(it, o):
+                    out.append(dict(v, what=f"rescale generic #{j} of a module with {len(case['items'])}: " + v["what"]))
+            return out
+        if k == "multi":
+            out = []
+            for j, body in enumerate(impl_out["bodies"]):
+                ws = value_widths(body)
+                welltyped = len(body["ret"]) == 1 and ref_width(ws, body["ret"][0]) == body["args"][-1]
+                kf = impl_out["kforms"][j]
+                if kf is None and not impl_out["unrecognised_unchanged"][j]:
+                    out.append({"what": f"generic #{j} of the module was not recognised but its body changed", "finding": None})
+                if not welltyped:
+                    continue
+                for tag, after in (("convert-linalg-to-kernel", impl_out["_after1"][j]),
+                                   ("convert-linalg-to-kernel,convert-kernel-to-linalg", impl_out["_after2"][j])):
+                    for i, b, a in zip(impl_out["_ins"][j], impl_out["_before"][j], after):
+                        if b is not None and a != b:
+                            out.append({"what": f"generic #{j} of a module with {len(impl_out['bodies'])} generics: body {body} computes {b} on "
+                                                f"inputs {i}, after {tag} it computes {a}", "finding": None})
+                            break
+                lc = impl_out["calls"][j]
+                if kf is None:
+                    if lc is not None:
+                        out.append({"what": f"generic #{j} holds no kernel op but got library_call {lc}", "finding": None})
+                else:
+                    out += dispatch_findings(kf["kernel"], kf["opTypes"] + [kf["resWidth"]], case["accs"], lc)
+            return out
         if k == "rescale_nolinalg":
             return [] if impl_out["unchanged"] else [{"what": "a kernel.rescale outside a linalg.generic was rewritten", "finding": None}]
         if k == "same_kernel":
@@ -1502,6 +1747,8 @@ class C18(Prop):
             kinds = sorted(str(o[0]) for o in case["body"]["ops"])
             return kinds in (["muli"], ["addi"], ["addi", "muli"], ["addi", "extsi", "extsi", "muli"],
                              ["addi", "extsi", "extsi", "muli", "subi", "subi"])
+        if k == "multi":
+            return any(kf is not None for kf in impl_out.get("kforms", []))
         if k == "dispatch":
             return impl_out.get("library_call") is not None
         return True
@@ -1517,6 +1764,8 @@ class C18(Prop):
             return f"recognize:{kf['kernel'] if kf else 'none'}"
         if k == "dispatch":
             return f"dispatch:{impl_out.get('library_call')}"
+        if k == "multi":
+            return f"multi:{sum(kf is not None for kf in impl_out.get('kforms', []))}-recognised-of-{len(case['items'])}"
         if k == "fused":
             return "fused:kernel-first" if is_kop(case["mbody"]["ops"][0]) else "fused:arith-first"
         if k == "tosa":
